@@ -259,6 +259,35 @@ func condCopy(dst, src []byte) {
 	}
 }
 
+// two helper calls that together fill the array / leave one element out
+func fillBools(b byte, f []bool) {
+	for i := range f {
+		f[i] = b>>uint(i)&1 == 1
+	}
+}
+
+type Mask struct{ M [16]bool }
+
+func (p *Mask) UnmarshalBinary(d []byte) error {
+	if len(d) != 2 {
+		return &fixErr{}
+	}
+	fillBools(d[0], p.M[:8])
+	fillBools(d[1], p.M[8:])
+	return nil
+}
+
+type GapMask struct{ M [16]bool }
+
+func (p *GapMask) UnmarshalBinary(d []byte) error {
+	if len(d) != 2 {
+		return &fixErr{}
+	}
+	fillBools(d[0], p.M[:8])
+	fillBools(d[1], p.M[9:])
+	return nil
+}
+
 type Filled struct{ A, B, C, D, E [4]byte }
 
 func (p *Filled) UnmarshalBinary(data []byte) error {
@@ -589,6 +618,8 @@ func c10Fixture(c *Ctx) {
 		{"R5.overwrite|lorawan.Good2.UnmarshalBinary/N", fxOK},
 		{"R5.overwrite|lorawan.Good2.UnmarshalBinary/L", fxOK},
 		{"R5.overwrite|lorawan.Half.UnmarshalBinary/Arr", fxBad},
+		{"R5.overwrite|lorawan.Mask.UnmarshalBinary/M", fxOK},
+		{"R5.overwrite|lorawan.GapMask.UnmarshalBinary/M", fxBad},
 		{"R5.overwrite|lorawan.Filled.UnmarshalBinary/A", fxOK},
 		{"R5.overwrite|lorawan.Filled.UnmarshalBinary/B", fxBad},
 		{"R5.overwrite|lorawan.Filled.UnmarshalBinary/C", fxBad},
